@@ -1509,7 +1509,7 @@ fn main() {
     }
 
     let max_n = r.pick(3, 4);
-    let cont_depth = r.pick(2, 3);
+    let cont_depth = r.pick(2, 4);
     let scheds: Vec<SchedulerKind> = if r.quick() {
         vec![SchedulerKind::Radix]
     } else {
